@@ -3,6 +3,7 @@ package main
 // Intrinsics, part 2: environment stubs added after round 1.
 
 import (
+	"crypto/sha1"
 	"go/types"
 
 	"golang.org/x/tools/go/ssa"
@@ -48,5 +49,29 @@ func init() {
 			tab[key] = o
 		}
 		return structure{ptr{o: o, c: &o.v}}, true
+	})
+}
+
+func init() {
+	// crypto/sha1.Sum: assembly-backed; computed by the host on concrete input.
+	reg("crypto/sha1.Sum", func(m *machine, fr *frame, fn *ssa.Function, a []value) (value, bool) {
+		s, ok := a[0].(slice)
+		if !ok {
+			panic(unsupported("sha1.Sum argument"))
+		}
+		b := make([]byte, 0, s.len)
+		for _, e := range s.elems() {
+			c, ok := e.(int64)
+			if !ok {
+				panic(unsupported("sha1.Sum of symbolic bytes"))
+			}
+			b = append(b, byte(c))
+		}
+		sum := sha1.Sum(b)
+		out := make(array, len(sum))
+		for i, c := range sum {
+			out[i] = int64(c)
+		}
+		return out, true
 	})
 }
